@@ -4,7 +4,7 @@ from vlib.core import Case, hx
 ID = "C10"
 NEEDS_CLI = True
 RULE = ("op msg.hash <bytes>: every length 0..1100 (quick: 0..300 + boundaries) with random content, "
-        "lengths 10^k-1, 10^k, 10^k+1, all 256 single-byte messages, non-UTF-8 content; "
+        "lengths 10^k-1, 10^k, 10^k+1, all 256 single-byte messages, non-UTF-8 content, special byte sequences (BOMs, line endings, NUL, Ctrl-Z, prefixes: vlib/magic.py) at the start, end and inside, library and `hash message` (stdin and file); "
         "non-trivial = distinct message; judge recomputes Keccak-256 of the EIP-191 pre-image independently of the model's preimage function")
 EXHAUSTIVE_SWEEPS = {"quick": ["all 256 one-byte messages", "all lengths 0..300"],
                      "thorough": ["all 256 one-byte messages", "all lengths 0..1100"]}
@@ -35,6 +35,12 @@ def gen(rng, tier):
     for n in sizes:
         for vf in (False, True):
             cases.append(Case("cli.hash_message_rep %d %d" % (n, rng.randrange(256)), tags=("cli", "stdin" if not vf else "file", "len:%d-digit" % len(str(n))), runner="cli", meta={"via_file": vf}))
+    # messages that begin / end with / contain special byte sequences (vlib/magic.py): a message is arbitrary bytes
+    from vlib import magic
+    for body in (bytes(rng.getrandbits(8) for _ in range(7)), b"hello world!"):
+        for d, tag in magic.variants(rng, body):
+            cases.append(Case("msg.hash " + hx(d), tags=("lib", tag)))
+            cases.append(Case("cli.hash_message " + hx(d), tags=("cli", tag), runner="cli", meta={"via_file": rng.random() < 0.5}))
     for n in (0, 1, 12, 300):
         cases.append(Case("cli.hash_message " + hx(bytes(rng.getrandbits(8) for _ in range(n))), tags=("cli",), runner="cli", meta={"via_file": rng.random() < 0.5}))
     return cases
